@@ -425,7 +425,7 @@ func scanOutDeg(c *core.Ctx) []ob {
 					return true
 				})
 				// accumulating operations add into the output: its higher components are part of the accumulator
-				if strings.Contains(d.fd.Name.Name, "ThenAdd") || strings.Contains(d.fd.Name.Name, "ThenSub") {
+				if accumulatingName(d.fd.Name.Name) {
 					continue
 				}
 				n++
@@ -486,7 +486,7 @@ func scanOutDeg(c *core.Ctx) []ob {
 								}
 							}
 						}
-						if !isParam || resizedFree(cl.d.pk.TypesInfo, cl.d.fd, ao, cl.call) || degreeGuarded(cl.d.pk.TypesInfo, cl.d.fd, ao) {
+						if !isParam || resizedFree(cl.d.pk.TypesInfo, cl.d.fd, ao, cl.call) || degreeGuarded(cl.d.pk.TypesInfo, cl.d.fd, ao) || accumulatingName(cl.d.fd.Name.Name) {
 							continue
 						}
 						if !cl.d.fd.Name.IsExported() && outAccounted(cl.d, ao, depth+1) {
@@ -523,6 +523,11 @@ func scanOutDeg(c *core.Ctx) []ob {
 							}
 						}
 						if !isParam {
+							continue
+						}
+						// the caller is an accumulating operation (…ThenAdd): the higher components of its output are part of
+						// the accumulator, exactly as when the loop stood in the caller itself
+						if accumulatingName(cl.d.fd.Name.Name) {
 							continue
 						}
 					}
@@ -579,6 +584,10 @@ func init() {
 }
 
 // degreeGuarded: the function refuses, with an error, an element o whose degree is not the expected one.
+func accumulatingName(name string) bool {
+	return strings.Contains(name, "ThenAdd") || strings.Contains(name, "ThenSub")
+}
+
 func degreeGuarded(info *types.Info, fd *ast.FuncDecl, o types.Object) bool {
 	found := false
 	ast.Inspect(fd.Body, func(y ast.Node) bool {
